@@ -52,6 +52,19 @@ PAIRS = {
 }
 
 
+# COMPONENTS OF takes the ROOT components of the referenced type only (X.680 25.5): when the referenced
+# type gains additions, the referencing type does not change
+PAIRS['components-of-ext'] = (
+    'A ::= SEQUENCE { COMPONENTS OF H, ok BOOLEAN, tail INTEGER (0..255) }\nH ::= SEQUENCE { h INTEGER (0..7), ... }',
+    'A ::= SEQUENCE { COMPONENTS OF H, ok BOOLEAN, tail INTEGER (0..255) }\n'
+    'H ::= SEQUENCE { h INTEGER (0..7), ..., x INTEGER (0..300), y BOOLEAN OPTIONAL }')
+PAIRS['components-of-ext-tail'] = (
+    'A ::= SEQUENCE { COMPONENTS OF H, ok BOOLEAN, tail INTEGER (0..255) }\n'
+    'H ::= SEQUENCE { h INTEGER (0..7), ..., ..., z BOOLEAN }',
+    'A ::= SEQUENCE { COMPONENTS OF H, ok BOOLEAN, tail INTEGER (0..255) }\n'
+    'H ::= SEQUENCE { h INTEGER (0..7), ..., x INTEGER (0..300), ..., z BOOLEAN }')
+
+
 for _L in (127, 128, 129, 256):
     # skipping an unknown addition / alternative whose encoding needs a long-form length
     PAIRS['seq-add-long-%d' % _L] = (TAIL + 'X ::= SEQUENCE { a BOOLEAN, ... }',
